@@ -20,7 +20,11 @@ EXPLANATION = (
     "service stopped, stopService saves, the end of a cycle saves; start_current_prefix is entered only from "
     "start_slice; the lease crawler does not override the traversal; (4) the state file is written to a sibling "
     "temporary file and moved into place (os.rename) - never written in place; (5) cycle counter: current-cycle = "
-    "last-cycle-finished + 1 (0 the first time) only when no cycle is in progress, last-cycle-finished = that cycle "
+    "last-cycle-finished + 1 (0 the first time) only when no cycle is in progress - the number 0 is chosen only where "
+    "'last-cycle-finished is None' is established and last-cycle-finished + 1 only where it is not None, whether the "
+    "decision is a statement if/else, a conditional expression or a temporary bound on two branches (a truthiness "
+    "test does not establish 'is None': a finished cycle 0 is falsy); the index<->prefix-name decisions of "
+    "load_state/save_state are read the same shape-independent way; last-cycle-finished = that cycle "
     "and the reset of current-cycle / last-complete-bucket / last_complete_prefix_index only after the prefix loop "
     "is exhausted and before the final save. "
     "Undecided: 'exactly once' under SIGKILL between process_bucket and save_state (documented duplicate work), "
@@ -468,7 +472,12 @@ def run(ctx: Context):
 
         def idx_is_m1(pol):
             def g(ft):
-                return ft[0] == ("==" if pol else "!=") and set(ft[1:]) == {MINUS1, IDX}
+                if ft[0] == ("==" if pol else "!=") and set(ft[1:]) == {MINUS1, IDX}:
+                    return True
+                # the index is an integer >= -1: 'index < 0' is the same test as 'index == -1'
+                if pol:
+                    return ft in (("<", IDX, "0"), ("<=", IDX, MINUS1))
+                return ft in (("<=", "0", IDX), ("<", MINUS1, IDX))
             return g
         sleaves = _leaves(sn, smark, val)
         if len(sleaves) < 2:
@@ -744,8 +753,10 @@ def run(ctx: Context):
                         r.violation(sc, sc.loc(site.ast), "a new cycle is numbered 0 where 'last-cycle-finished is None' was "
                                     "not established%s: cycle numbering restarts at 0 although a cycle (cycle 0) was "
                                     "finished before, so cycle numbers stop increasing by one per completed cycle" % (
-                                        (" - the number is chosen under %s, which also holds when last-cycle-finished "
-                                         "is 0" % " and ".join(_fact_str(g) for g in gs)) if gs else ""), w)
+                                        (" - the number is chosen under %s, which is not that test%s" % (
+                                            " and ".join(_fact_str(g) for g in gs),
+                                            " (it also holds when last-cycle-finished is 0)"
+                                            if any(g[0] == "false" and g[2] is None for g in gs) else "")) if gs else ""), w)
                 elif v == NEXT:
                     seen_forms.add("next")
                     bad = _not_established(cn, ccfg, site, conds, lcf_some)
